@@ -12,12 +12,14 @@ import (
 	"verif/fix/qgen"
 	"verif/fix/refeval"
 	"verif/harness/reg"
+	"vrt/rt"
 )
 
 type schedCase struct {
 	data  int
 	modes gqlfix.Modes
 	q     *qgen.Query
+	pause bool // every configurable resolver yields to the scheduler before it reads its source object
 }
 
 func schedCases(tier string) []schedCase {
@@ -39,6 +41,24 @@ func schedCases(tier string) []schedCase {
 		{"items": gqlfix.PlainPar2, "friend": gqlfix.Expensive, "score": gqlfix.Batch, "owner": gqlfix.Par3, "fav": gqlfix.Par2},
 	}
 	var out []schedCase
+	// sources handed over by value, resolvers that read their source after a scheduling point
+	vq := []*qgen.Query{
+		{Root: []*qgen.Node{F("usersV", F("id"), F("score"), F("friend", F("id")))}},
+		{Root: []*qgen.Node{F("itemsV", F("id"), F("owner", F("name")))}},
+		{Root: []*qgen.Node{F("users", F("id"), F("score"), F("items", F("owner", F("id"))))}},
+	}
+	vm := []gqlfix.Modes{
+		{"score": gqlfix.Expensive, "friend": gqlfix.Expensive, "owner": gqlfix.Expensive},
+		{"score": gqlfix.PlainPar2, "friend": gqlfix.BatchFallbackOff, "owner": gqlfix.PlainPar2, "items": gqlfix.Par2},
+	}
+	for qi, q := range vq {
+		for mi, m := range vm {
+			if tier != "thorough" && qi == 2 && mi == 1 {
+				continue
+			}
+			out = append(out, schedCase{data: 0, modes: m, q: q, pause: true})
+		}
+	}
 	for qi, q := range qs {
 		for mi, m := range ms {
 			if tier != "thorough" && (qi+mi)%2 == 1 {
@@ -51,7 +71,11 @@ func schedCases(tier string) []schedCase {
 }
 
 func (c schedCase) name() string {
-	return fmt.Sprintf("modes=%s query=%s", modesName(c.modes), c.q.String())
+	p := ""
+	if c.pause {
+		p = "pause "
+	}
+	return fmt.Sprintf("%smodes=%s query=%s", p, modesName(c.modes), c.q.String())
 }
 
 func schedItem(c schedCase) *explore.Item {
@@ -62,7 +86,11 @@ func schedItem(c schedCase) *explore.Item {
 		panic(err)
 	}
 	want, _ := gqlfix.Norm(w)
-	schema := gqlfix.Build(d, c.modes, nil)
+	var hooks *gqlfix.Hooks
+	if c.pause {
+		hooks = &gqlfix.Hooks{Before: func(ctx context.Context, field string, keys []int64) error { rt.Yield(); return nil }}
+	}
+	schema := gqlfix.Build(d, c.modes, hooks)
 	text := c.q.String()
 	return &explore.Item{Name: c.name(), Bound: -1, MaxSteps: 20000, Body: func(x *explore.Exec) {
 		got, err := gqlfix.Exec(context.Background(), schema, graphql.NewImmediateGoroutineScheduler(), text, nil)
@@ -92,6 +120,6 @@ func init() {
 			}
 			panic("unknown item " + name)
 		},
-		Rule: "scheduled part: queries with several concurrent work units (expensive fields split per source, batch fields, NumParallelInvocations 2-3, nested lists, unions, fragments) executed with thunder's goroutine-per-work-unit scheduler under every interleaving within the deviation bound; oracle: result == independent evaluator"})
+		Rule: "scheduled part: queries with several concurrent work units (expensive fields split per source, batch fields, NumParallelInvocations 2-3, nested lists, unions, fragments; sources handed over by pointer and by value; resolvers that read their source only after a scheduling point) executed with thunder's goroutine-per-work-unit scheduler under every interleaving within the deviation bound; oracle: result == independent evaluator"})
 	_ = strings.Join
 }
